@@ -216,6 +216,18 @@ def gen_trace(mod, rng, mode, force_prune=None):
                         r.t2 = s
             real = r.call(ad)
             r.log("adopt", r.t2, real, i=2, root=e["st"]["root"], lookkeys=pool[:5])
+        elif mode == "second" and 0.45 <= x < 0.55 and r.ev:
+            # point the first trie itself at a root it (or the second trie) had before
+            roots = [e for e in r.ev if e.get("_rh") is not None]
+            if not roots:
+                continue
+            e = rng.choice(roots)
+            rh = e["_rh"]
+
+            def ck():
+                r.t.root_hash = rh
+            real = r.call(ck)
+            r.log("checkout", r.t, real, i=1, root=e["st"]["root"], lookkeys=pool[:5])
         elif mode == "second" and r.t2 is not None and x < 0.45:
             r.write("set2", pool, share)
         elif faults and x < 0.25 and len(r.db) > 0:
@@ -360,4 +372,11 @@ def rerun_trace(mod, trace):
                 r.t2 = r.H(r.db, rh)
             real = r.call(ad)
             r.log("adopt", r.t2, real, i=2, root=e["root"], lookkeys=look)
+        elif a == "checkout":
+            rh = rz.root_hash(e["root"])
+
+            def ck():
+                r.t.root_hash = rh
+            real = r.call(ck)
+            r.log("checkout", r.t, real, i=1, root=e["root"], lookkeys=look)
     return {"prune": trace["prune"], "faults": trace["faults"], "ev": r.ev, "problems": [p[0] for p in r.problems]}
